@@ -92,12 +92,24 @@ def rowLeDesc (a b : Row) : Bool := keyLt a.key b.key || (a.key == b.key && b.se
 def expectedObjects (keys : List Key) (pfx delim marker : Key) : List (Entry Key) :=
   listing id pfx delim (keyLt marker) (sortBy keyLe keys)
 
+/-- `s` lies after the optional marker sequence number (ascending listings). -/
+def afterSeq (m : Option Nat) (s : Nat) : Bool :=
+  match m with
+  | some x => x < s
+  | none => false
+
+/-- `s` lies after the optional marker sequence number in a newest-first listing. -/
+def olderThan (m : Option Nat) (s : Nat) : Bool :=
+  match m with
+  | some x => s < x
+  | none => false
+
 /-- ListMultipartUploads: uploads ordered by key, then by initiation; `key-marker` alone starts
 after every upload of that key, together with `upload-id-marker` (`um = some s`, the `seq` of that
 upload) after that upload. -/
 def expectedUploads (rows : List Row) (pfx delim km : Key) (um : Option Nat) : List (Entry Row) :=
   listing (·.key) pfx delim
-    (fun r => keyLt km r.key || (r.key == km && match um with | some s => s < r.seq | none => false))
+    (fun r => keyLt km r.key || (r.key == km && afterSeq um r.seq))
     (sortBy rowLeAsc rows)
 
 /-- ListObjectVersions: versions and delete markers ordered by key, newest first;
@@ -105,7 +117,7 @@ def expectedUploads (rows : List Row) (pfx delim km : Key) (um : Option Nat) : L
 (`vm = some s`, the `seq` of that version) after that version. -/
 def expectedVersions (rows : List Row) (pfx delim km : Key) (vm : Option Nat) : List (Entry Row) :=
   listing (·.key) pfx delim
-    (fun r => keyLt km r.key || (r.key == km && match vm with | some s => r.seq < s | none => false))
+    (fun r => keyLt km r.key || (r.key == km && olderThan vm r.seq))
     (sortBy rowLeDesc rows)
 
 /-- ListParts: part numbers greater than the marker, ascending. -/
